@@ -187,3 +187,85 @@ def stores_through(func, flow=None):
             root = t.value
             out.append((unparse(t), root, n))
     return out
+
+
+# ---- memo census (D4 generalised) ------------------------------------------------------------------------------------
+
+def memo_patterns(repo):
+    """Every 'compute once, store, return' pattern in the package:
+       `if <guard mentioning key K>: <store under the same K>` where the store target is self.<K>, self._data[K],
+       cls.<K> or <obj>._cache[K].  Returns [(func, key, guard_text, store_node)]."""
+    out = []
+    for f in repo.all_funcs():
+        for n in ast.walk(f.node):
+            if not isinstance(n, ast.If):
+                continue
+            gt = unparse(n.test)
+            stores = []
+            for s in n.body:
+                for x in ast.walk(s):
+                    if isinstance(x, ast.Assign):
+                        for t in x.targets:
+                            stores.append((t, x))
+            for t, st in stores:
+                key = None
+                if isinstance(t, ast.Attribute) and isinstance(t.value, ast.Name) and t.value.id in ("self", "cls"):
+                    key = t.attr
+                elif isinstance(t, ast.Subscript) and isinstance(t.slice, ast.Constant) and isinstance(t.slice.value, str):
+                    base = unparse(t.value)
+                    if base.endswith("._data") or base.endswith("._cache") or base in ("cache", "cls._dbs"):
+                        key = t.slice.value
+                if key is None:
+                    continue
+                mentions = (f"'{key}'" in gt or f'"{key}"' in gt or f".{key}" in gt) and ("not in" in gt or "hasattr" in gt or "is None" in gt)
+                if mentions:
+                    out.append((f, key, gt, st))
+    return out
+
+# table A4 — memos confirmed by reading, with the reason each is safe
+MEMO_TABLE = {
+    ("beyond/dates/date.py::Date.__str__", "str"): "Date is immutable",
+    ("beyond/dates/date.py::Date.datetime", "dt_scale"): "Date is immutable",
+    ("beyond/dates/date.py::Date._datetime", "dt"): "Date is immutable",
+    ("beyond/dates/eop.py::EopDb._load_entry_points", "_entry_points_loaded"): "process-wide one-shot flag",
+    ("beyond/env/jpl.py::Bsp.__new__", "_instance"): "singleton of the configured kernels",
+    ("beyond/env/jpl.py::Bsp.spk", "_spk"): "kernel files are read once",
+    ("beyond/env/jpl.py::Pck.__new__", "_instance"): "singleton of the configured constants",
+    ("beyond/orbits/ephem.py::Ephem.interp", "_interp"): "dropped by the frame/form setters (D4)",
+    ("beyond/orbits/statevector.py::Infos.kep", "_kep"): "Infos is rebuilt at every `.infos` access, so the memo lives for one access chain",
+    ("beyond/orbits/statevector.py::Infos.sphe", "_sphe"): "idem",
+    ("beyond/propagators/cw.py::ClohessyWiltshire.n", "_n"): "sma and frame are only set by the constructor (D4)",
+}
+MEMOIZE_DECORATED = {"beyond/frames/iau1980.py::_tab": "file table", "beyond/frames/iau1980.py::_nutation": "keyed by str(date) + options: pure function of its arguments",
+                     "beyond/frames/iau2010.py::_tab": "file tables"}
+
+
+def memo_census(chk, rule, only=None):
+    """Every memo in the package is in table A4; `only` restricts the report to memos of the given function refs."""
+    from .model import loc
+    seen = set()
+    for f, key, guard, st in memo_patterns(chk.repo):
+        ent = (f.ref, key)
+        if only is not None and f.ref not in only:
+            continue
+        seen.add(ent)
+        reason = MEMO_TABLE.get(ent)
+        chk.inst(rule, f"{f.ref}::memo::{key}", reason is not None, f"tabled memo: {reason}" if reason else
+                 f"`if {guard}:` stores `{key}` and later accesses reuse it: a cache on a mutable object that no writer invalidates "
+                 f"(derived quantities keep the values of the first access after the object changes, and copies carry the stale cache)", loc(f, st))
+    for f in chk.repo.all_funcs():
+        if "memoize" in f.decorators and (only is None):
+            ok = f.ref in MEMOIZE_DECORATED
+            chk.inst(rule, f"{f.ref}::memoize", ok, f"tabled: {MEMOIZE_DECORATED.get(f.ref)}" if ok else "new @memoize (keyed by str(args)): read it, then table it", loc(f, f.node))
+    return seen
+
+
+def fresh_infos(chk, rule):
+    """`StateVector.infos` hands out an Infos built from the current state at every access."""
+    from .model import loc
+    f = chk.repo.func("beyond/orbits/statevector.py", "StateVector.infos")
+    memos = [m for m in memo_patterns(chk.repo) if m[0].ref == f.ref]
+    builds = [n for n in ast.walk(f.node) if isinstance(n, ast.Call) and unparse(n.func) == "Infos" and [unparse(a) for a in n.args] == ["self"]]
+    ok = not memos and len(builds) == 1
+    chk.inst(rule, f"{f.ref}::rebuilt-per-access", ok, "Infos(self) is rebuilt at every access (its guard never finds a stored object), so derived quantities follow the state" if ok else
+             "the Infos object is cached in the state's metadata: mean motion, period, … keep the values of the first access after the elements change, and copies carry it", loc(f, f.node))
